@@ -259,6 +259,25 @@ static void pump(Slot& s)
 	}
 }
 
+// sid <begin1> <sender1> <target1> <begin2> <sender2> <target2> <via: ctor|string>  -> SessionID comparison results (C23)
+static Reg r_sid("sid", [](std::istringstream& is) {
+	std::string b1, s1, t1, b2, s2, t2, via; is >> b1 >> s1 >> t1 >> b2 >> s2 >> t2 >> via;
+	b1 = unhex(b1); s1 = unhex(s1); t1 = unhex(t1); b2 = unhex(b2); s2 = unhex(s2); t2 = unhex(t2);
+	SessionID x(b1, s1, t1), y(b2, s2, t2);
+	if (via == "string") { x = SessionID(x.get_id()); y = SessionID(y.get_id()); }
+	SessionID xc(x);
+	J j;
+	j.k("eq").boolean(x == y); j.k("ne").boolean(x != y);
+	j.k("eq_rev").boolean(y == x); j.k("ne_rev").boolean(y != x);
+	j.k("self_eq").boolean(x == x); j.k("self_ne").boolean(x != x);
+	j.k("copy_eq").boolean(x == xc); j.k("copy_ne").boolean(x != xc);
+	j.k("id1").str(x.get_id()); j.k("id2").str(y.get_id());
+	j.k("s1").str(x.get_senderCompID()()); j.k("t1").str(x.get_targetCompID()());
+	SessionID r(x.make_reverse_id());
+	j.k("rev_s").str(r.get_senderCompID()()); j.k("rev_t").str(r.get_targetCompID()());
+	return j.done();
+});
+
 static Reg r_sess("sess", [](std::istringstream& is) {
 	std::string op; is >> op;
 	vclock_on = true;
